@@ -154,9 +154,15 @@ def search(r, quick):
                     theorem="C10_search_" + v["violation"])
     # V-tie rejections (keyed like the search's violations)
     for c in getattr(r, "_vtie_bad", []):
+        if (c.get("key"), "tree") in seen:
+            continue
+        seen.add((c.get("key"), "tree"))
         r.violation(c.get("key") or ("vtie:" + c["src"][:80]), "node_eqb rejects the compiled trees of a source and of its formatted text [%s]: %r" % (c["cfg"], c.get("small") or c["src"][:200]),
                     {"src": c["src"], "fmt": c["fmt"], "cfg": c["cfg"], "shrunk": c.get("small")}, theorem="C10_prog_eqb_sound")
     for c in getattr(r, "_vtie_iff", []):
+        if (c.get("key"), "compile-iff") in seen:
+            continue
+        seen.add((c.get("key"), "compile-iff"))
         r.violation(c.get("key") or ("vtie-iff:" + c["src"][:80]), "a source and its formatted text do not compile alike [%s]: %r" % (c["cfg"], c.get("small") or c["src"][:200]),
                     {k: c.get(k) for k in ("src", "fmt", "cfg", "small", "src_compiles", "fmt_compiles")}, theorem="C10_search_compile-iff")
     r.sample({"search": "counts by key", "violation_keys": summ.get("violation_keys")})
